@@ -22,6 +22,9 @@ type Shape struct {
 }
 
 var CtxKinds = []string{"cond1", "condd", "begin", "let", "letseq", "scope", "and", "or"}
+// ExitKinds are extra context kinds (not part of the exhaustive enumeration AllCtx): see wrap.
+var ExitKinds = []string{"andx", "orx", "condx", "cond2x"}
+
 var PreKinds = []string{"none", "def", "for", "trace", "varargs"}
 
 // ExtraPreKinds (run with Base = val only): the arity boundary of variadic functions (self call with
@@ -105,6 +108,16 @@ func (sh Shape) wrap(i int, vis []string) *r.Node {
 		return r.Let(true, []string{k, k + "j"}, []*r.Node{call("+", r.Var("n"), lv), call("+", r.Var(k), r.Int(1))}, sh.wrap(i+1, append(append([]string{}, vis...), k, k+"j")))
 	case "scope":
 		return r.Scope(r.Def(k, call("*", r.Var("n"), lv)), sh.wrap(i+1, append(append([]string{}, vis...), k)))
+	// tail contexts with a data-dependent EXIT that does not reach the tail call (at n = 2): the
+	// short-circuit / the inner arm leaves through the slot behind the code of the tail call
+	case "andx":
+		return r.And(call("!=", r.Var("n"), r.Int(2)), sh.wrap(i+1, vis))
+	case "orx":
+		return r.Or(call("==", r.Var("n"), r.Int(2)), sh.wrap(i+1, vis))
+	case "condx":
+		return r.Cond(call("==", r.Var("n"), r.Int(2)), r.Int(77), sh.wrap(i+1, vis))
+	case "cond2x":
+		return r.Cond(call("==", r.Var("n"), r.Int(2)), r.Int(78), call(">", r.Var("n"), r.Int(0)), sh.wrap(i+1, vis), r.Int(-2))
 	case "and":
 		return r.And(r.Bool(true), lv, sh.wrap(i+1, vis))
 	case "or":
@@ -174,6 +187,7 @@ func (sh Shape) Program(depth int) *r.Program {
 	return &r.Program{Forms: []*r.Node{
 		sh.Defn(),
 		r.Def("r", call("f", r.Int(int64(depth)), r.Arr(), r.Int(0))),
+		call("trace", r.QuoteSym("sc"), r.Var("r")), // the result itself, before it is used as an array of closures
 		call("trace", r.QuoteSym("sb"), call("map", r.Fn([]string{"c"}, "", r.Call(r.Var("c"))), r.Var("r"))),
 		r.Var("r"),
 	}}
@@ -273,6 +287,43 @@ var Templates = []Template{
 	{"mdef-rhs", "(cond (== n 0) 1 (begin (mdef p q (list CALL 2)) (+ p q)))", false},
 }
 
+// EarlierForms: forms compiled BEFORE a non-tail self call in the same initialiser list / element
+// list / argument list of the function's own compile unit; whatever they do to the generator's
+// tail flag must not reach the self call.
+var EarlierForms = []struct{ Name, Src string }{
+	{"syntax-quote", "^(s ~n)"},
+	{"syntax-quote-splice", "^(s ~@(list n 1))"},
+	{"syntax-quote-array", "^[1 ~n]"},
+	{"quote", "(quote (s t))"},
+	{"fn-literal", "(fn [z] (+ z n))"},
+	{"nested-let", "(let [u 1] (+ u n))"},
+	{"cond", "(cond (> n 1) 1 2)"},
+	{"and-or", "(or false (and true n))"},
+	{"newscope", "(newScope (def u n) u)"},
+	{"for-loop", "(begin (def u 0) (for [(def i 0) (< i 2) (set i (+ i 1))] (set u (+ u i))) u)"},
+	{"infix-block", "{u = n + 1; u * 2}"},
+	{"hash-literal", "(hash k: n)"},
+	{"array-literal", "[n 1]"},
+	{"assert", "(assert true)"},
+	{"macro-call", "(c9t n)"},
+	{"string-and-call", "(str n)"},
+}
+
+func init() {
+	for _, e := range EarlierForms {
+		pre := ""
+		if e.Name == "macro-call" {
+			pre = "MACRO"
+		}
+		Templates = append(Templates,
+			Template{"earlier-" + e.Name + "-then-let-init", pre + "(cond (== n 0) 0 (let [e " + e.Src + " more CALL] (+ 1 more)))", false},
+			Template{"earlier-" + e.Name + "-then-letseq-init", pre + "(cond (== n 0) 0 (letseq [e " + e.Src + " more CALL] (+ 1 more)))", false},
+			Template{"earlier-" + e.Name + "-then-array-element", pre + "(cond (== n 0) 0 (let [v [" + e.Src + " CALL]] (+ 1 (aget v 1))))", false},
+			Template{"earlier-" + e.Name + "-then-self-call-argument", pre + "(cond (== n 0) a (> n 5) 0 (f (begin " + e.Src + " (- n 1)) CALL))", false},
+		)
+	}
+}
+
 func (t Template) Source(depth int, twin bool) string {
 	c := "(f (- n 1) a)"
 	body := t.Src
@@ -282,8 +333,14 @@ func (t Template) Source(depth int, twin bool) string {
 		body = strings.ReplaceAll(body, "(f (- n 1))", "((begin f) (- n 1))")
 		body = strings.ReplaceAll(body, "(f (- n 1) CALL)", "((begin f) (- n 1) CALL)")
 		body = strings.ReplaceAll(body, "(f k a)", "((begin f) k a)")
+		body = strings.ReplaceAll(body, "(f (begin ", "((begin f) (begin ")
 		body = strings.ReplaceAll(body, "(f {n - 1} a)", "((begin f) {n - 1} a)")
 	}
 	body = strings.ReplaceAll(body, "CALL", c)
-	return fmt.Sprintf("(defn f [n a] %s) (f %d 4)", body, depth)
+	defs := ""
+	if strings.HasPrefix(body, "MACRO") {
+		body = body[5:]
+		defs = "(defmac c9t [x] ^(+ ~x 1)) "
+	}
+	return fmt.Sprintf("%s(defn f [n a] %s) (f %d 4)", defs, body, depth)
 }
